@@ -313,7 +313,8 @@ def load_native_csv(
             strict=True
         )
         for i, row in enumerate(csv_reader):
-            if i == 0 and contains_header:
+            # column_names is None: csv.DictReader has already taken the header from the first line
+            if i == 0 and contains_header and column_names is not None:
                 not_equal_column_name = next((f"name '{value}' of column #{j} is not equal to expected '{key}'" for j,(key,value) in enumerate(row.items()) if key != value), None)
                 if not_equal_column_name:
                     if raise_exception:
